@@ -79,7 +79,7 @@ func cmdSelftest(args []string) int {
 		for _, procs := range []string{"1", "4", "16"} {
 			for rep := 0; rep < 2; rep++ {
 				os.Setenv("VERIF_WORKER_GOMAXPROCS", procs)
-				out := runWorker(b.worker, Job{Property: prop, Tier: "quick", Seeds: seeds}, 20*60*1e9, m.Race)
+				out := runWorker(b.worker, Job{Property: prop, Tier: "quick", Seeds: seeds, RunLimitS: m.RunLimitS}, 60*60*1e9, m.Race)
 				execs++
 				if out.crashed {
 					fmt.Printf("selftest: %s worker died at seed %d (GOMAXPROCS=%s); skipping that seed\n", prop, out.crashSeed, procs)
